@@ -266,6 +266,9 @@ def cmpRunProgram (lawful : Bool) (c : Case) (modName : String) : String × List
     (if has .partialOrd then s!" for a in &vs \{ let mut s = String::new(); for b in &vs \{ s.push(oc(a.partial_cmp(b))); } println!(\"{modName} pcmp \{}\", s); }\n" else "") ++
     (if has .ord then s!" for a in &vs \{ let mut s = String::new(); for b in &vs \{ s.push(oc(Some(Ord::cmp(a, b)))); } println!(\"{modName} cmp \{}\", s); }\n" else "") ++
     (if has .hash then s!" for a in &vs \{ let mut h = Rec(Vec::new()); a.hash(&mut h); println!(\"{modName} hash \{}\", h.0.join(\",\")); }\n" else "") ++
+    -- the values hashed as the elements of a slice: the derived impl does not touch `hash_slice`, so the feed is the
+    -- concatenation of the elements' feeds
+    (if has .hash then s!" \{ let mut h = Rec(Vec::new()); Hash::hash_slice(&vs[..], &mut h); println!(\"{modName} hslice \{}\", h.0.join(\",\")); }\n" else "") ++
     "}\n}\n"
   let find (t : CmpOp) : Option CmpImpl := (impls.find? (·.1 == t)).map (·.2)
   let exp : List String :=
@@ -279,7 +282,8 @@ def cmpRunProgram (lawful : Bool) (c : Case) (modName : String) : String × List
      | some ci => vs.map fun a => s!"{modName} cmp {String.ofList (vs.map fun b => ocChar (some (evalCmp ci σ a b)))}"
      | none => []) ++
     (match find .hash with
-     | some ci => vs.map fun a => s!"{modName} hash {",".intercalate (evalHash ci σ a)}"
+     | some ci => (vs.map fun a => s!"{modName} hash {",".intercalate (evalHash ci σ a)}") ++
+                  [s!"{modName} hslice {",".intercalate (vs.flatMap fun a => evalHash ci σ a)}"]
      | none => [])
   (body, exp)
 
@@ -330,6 +334,9 @@ def probeProgram (lawful : Bool) (c : Case) (traits : List String) (modName : St
     (if has .partialOrd then s!" for a in &vs \{ let mut s = String::new(); for b in &vs \{ s.push(oc(a.partial_cmp(b))); } println!(\"{modName} pcmp \{}\", s); }\n" else "") ++
     (if has .ord then s!" for a in &vs \{ let mut s = String::new(); for b in &vs \{ s.push(oc(Some(Ord::cmp(a, b)))); } println!(\"{modName} cmp \{}\", s); }\n" else "") ++
     (if has .hash then s!" for a in &vs \{ let mut h = Rec(Vec::new()); a.hash(&mut h); println!(\"{modName} hash \{}\", h.0.join(\",\")); }\n" else "") ++
+    -- the values hashed as the elements of a slice: the derived impl does not touch `hash_slice`, so the feed is the
+    -- concatenation of the elements' feeds
+    (if has .hash then s!" \{ let mut h = Rec(Vec::new()); Hash::hash_slice(&vs[..], &mut h); println!(\"{modName} hslice \{}\", h.0.join(\",\")); }\n" else "") ++
     "}\n}\n"
   let find (t : CmpOp) : Option CmpImpl := (impls.find? (·.1 == t)).map (·.2)
   let exp : List String :=
@@ -343,7 +350,8 @@ def probeProgram (lawful : Bool) (c : Case) (traits : List String) (modName : St
      | some ci => vs.map fun a => s!"{modName} cmp {String.ofList (vs.map fun b => ocChar (some (evalCmp ci σ a b)))}"
      | none => []) ++
     (match find .hash with
-     | some ci => vs.map fun a => s!"{modName} hash {",".intercalate (evalHash ci σ a)}"
+     | some ci => (vs.map fun a => s!"{modName} hash {",".intercalate (evalHash ci σ a)}") ++
+                  [s!"{modName} hslice {",".intercalate (vs.flatMap fun a => evalHash ci σ a)}"]
      | none => [])
   (body, exp)
 
